@@ -165,6 +165,6 @@ theorem C03_wiring :
 /-- Tie (T1): the session is looked up under the cookie's exact configured name (`req.Cookie(name)`), the very name
 `deleteCookie` strips. -/
 theorem C03_skeleton_LoadSession : Sso.Generated.skel_store_LoadSession =
-    ["call:NewLogEntry", "call:Cookie", "if{", "return", "}", "call:UnmarshalSession", "if{", "call:WithRequestHost", "call:WithError", "call:Error", "return", "}", "return"] := by decide
+    ["call:Cookie", "if{", "return", "}", "call:UnmarshalSession", "if{", "return", "}", "return"] := by decide
 
 end Sso.Forward
